@@ -248,8 +248,18 @@ func cmdCheck(argv []string) {
 		rp = newReplayer(p)
 		defer rp.cleanup()
 	}
+	foreign := 0
 	for k := range allV {
 		v := &allV[k]
+		// an assertion tagged "[Cxx] ..." belongs to that property's check
+		own := ownerOf(v.Msg)
+		if own == "" && strings.HasPrefix(v.Harness, "VX_C") && len(v.Harness) >= 6 {
+			own = v.Harness[3:6] // untagged assertions belong to the harness's own property
+		}
+		if own != "" && own != id {
+			foreign++
+			continue
+		}
 		key := v.Harness + "|" + v.Kind + "|" + v.Msg
 		kf := matchFinding(kfs, id, *v)
 		if kf != nil && seenKnown[key] {
@@ -335,6 +345,7 @@ func cmdCheck(argv []string) {
 			"replays":             replayed,
 			"replays_reproduced":  reproduced,
 			"known_findings":      knownLines,
+			"counterexamples_owned_by_other_properties": foreign,
 			"exhaustive":          false,
 		}
 		if spec.level == "model_checking" {
@@ -413,6 +424,16 @@ func (r *replayer) writeReplayFile(prop string, v violation) string {
 	b, _ := json.MarshalIndent(v, "", " ")
 	os.WriteFile(path, b, 0o644)
 	return path
+}
+
+// ownerOf extracts the owning property from a message of the form "[C04] ...".
+func ownerOf(msg string) string {
+	if len(msg) > 5 && msg[0] == '[' && msg[1] == 'C' {
+		if k := strings.IndexByte(msg, ']'); k > 0 && k <= 5 {
+			return msg[1:k]
+		}
+	}
+	return ""
 }
 
 func shortHash(s string) string {
